@@ -19,7 +19,7 @@ var c02Diff = reg("C02", "c02-diff", checkEvalCase)
 var c02Meta = reg("C02", "c02-meta", checkC02Meta)
 
 func c02DocCfg() xmodel.GenCfg {
-	return xmodel.GenCfg{MaxDepth: 4, MaxKids: 4, MaxTop: 1, Forest: true, Names: []string{"a", "b", "a", "b", "c"}, Numeric: true, Wide: true, Undeclare: true, AllowBig: thorough(), Stress: true}
+	return xmodel.GenCfg{MaxDepth: 4, MaxKids: 4, MaxTop: 1, Forest: true, Names: []string{"a", "b", "a", "b", "c", "a", "b", "nan", "inf", "Infinity"}, Numeric: true, Wide: true, Undeclare: true, AllowBig: thorough(), Stress: true}
 }
 
 // genPredPath draws a path whose steps carry predicates, over forward and
